@@ -494,7 +494,7 @@ fn main() {
         silence_stderr();
         let (depth, nvecs_set, cap) = match ctx.tier {
             svmc::Tier::Quick => (4, 3, 2_000_000u64),
-            svmc::Tier::Thorough => (6, 5, 400_000u64),
+            svmc::Tier::Thorough => (5, 3, 2_000_000u64),
         };
         let m = M { nvecs_set };
         if let Some(p) = &ctx.replay {
